@@ -925,3 +925,11 @@ func init() {
 	mutant("disconnect-callback-called-unset", "optional-callbacks-guarded", "conn.go", "	first, err := c.shut()\n\n	if first && c.onDisconnect != nil {", "	first, err := c.shut()\n\n	if first || c.onDisconnect != nil {")
 	mutant("netdial-called-unset", "optional-callbacks-guarded", "conn.go", "	if d.NetDial != nil {\n		c, err = d.NetDial(d.Addr)", "	if d.NetDial == nil {\n		c, err = d.NetDial(d.Addr)")
 }
+
+func init() {
+	mutant("stream-born-without-a-context", "stream-birth-and-timeout", "serverConn.go", "				sc.createStream(sc.c, fr.Type(), strm)\n", "")
+	mutant("stream-born-without-an-origin", "stream-birth-and-timeout", "serverConn.go", "	strm.origType = frameType\n", "")
+	mutant("timeout-arm-counts-up-while-dropping", "counted-loops-advance", "serverConn.go", "				closeStream(strm)\n\n				deleteUntil--", "				closeStream(strm)\n\n				deleteUntil++")
+	mutant("timeout-arm-drops-one-too-many", "stream-birth-and-timeout", "serverConn.go", "			for deleteUntil > 0 {", "			for deleteUntil >= 0 {")
+	mutant("timeout-arm-counts-past-a-stream-not-due", "stream-birth-and-timeout", "serverConn.go", "				if !isDue {\n					break\n				}", "				if !isDue {\n					continue\n				}")
+}
